@@ -374,6 +374,18 @@ def gen_twins(rng):
                 nxt += 1
                 both(dict(op='grow', h=cur, which=rng.randrange(5), off=rng.randrange(16), alt=rng.randrange(40)))
                 compare(cur)
+                if rng.random() < 0.4:
+                    # a map of the OTHER storage kind made like the map read back (whose metadata now carries the
+                    # file's storage keywords), filled, written and read back: the file must describe the new map
+                    hist.append(dict(op='mklike', h=cur, out=nxt, bit_packed=False))
+                    hist.append(dict(op='mklike', h=cur + 100, out=nxt + 100, bit_packed=True))
+                    st2 = gens.rand_update(rng, mkp, h=nxt, forms=('pix',))
+                    both(st2)
+                    both(dict(op='wr', h=nxt, out=nxt + 1, compress=rng.random() < 0.5, pixels=None))
+                    hist.append(dict(op='sameas_if', h=nxt + 1, ref=nxt + 101))
+                    hist.append(gens2.chk(nxt + 1, ['values', 'cov', 'valid', 'nvalid']))
+                    hist.append(gens2.chk(nxt + 101, ['values', 'cov', 'valid', 'nvalid']))
+                    nxt += 2
             else:
                 nxt += 1
             continue
